@@ -174,7 +174,47 @@ theorem resolvable (ss : List Step) (s : Step) (hs : s ∈ ss) : ∃ t, findStep
     have := List.find?_some h
     exact ⟨t, rfl, by simpa using this⟩
 
+/-- the runner resolves a name to the FIRST step of the schedule carrying it:
+    nothing before it has that name (in particular never to a step chosen by
+    position, whatever the name looks like) -/
+theorem resolves_to_first (ss : List Step) (n : Bytes) (t : Step) (h : findStep ss n = some t) :
+    ∃ pre post, ss = pre ++ t :: post ∧ t.name = n ∧ ∀ x ∈ pre, x.name ≠ n := by
+  unfold findStep at h
+  obtain ⟨hp, pre, post, rfl, hpre⟩ := List.find?_eq_some_iff_append.mp h
+  refine ⟨pre, post, rfl, by simpa using hp, ?_⟩
+  intro x hx
+  have := hpre x hx
+  simpa using this
+
+theorem nodup_map_inj {α β : Type} (f : α → β) : ∀ (l : List α), (l.map f).Nodup →
+    ∀ a ∈ l, ∀ b ∈ l, f a = f b → a = b
+  | [], _, a, ha, _, _, _ => by cases ha
+  | x :: xs, h, a, ha, b, hb, hab => by
+    rw [List.map_cons, List.nodup_cons] at h
+    rcases List.mem_cons.mp ha with rfl | ha' <;> rcases List.mem_cons.mp hb with rfl | hb'
+    · rfl
+    · exact absurd (hab ▸ List.mem_map_of_mem (f := f) hb') h.1
+    · exact absurd (hab.symm ▸ List.mem_map_of_mem (f := f) ha') h.1
+    · exact nodup_map_inj f xs h.2 a ha' b hb' hab
+
+/-- with pairwise distinct names (every schedule but robsd's, whose `env`
+    appears twice with the same command) each listed step resolves to itself -/
+theorem resolves_to_itself (ss : List Step) (hnd : (ss.map (·.name)).Nodup) (s : Step) (hs : s ∈ ss) :
+    findStep ss s.name = some s := by
+  obtain ⟨t, ht, hn⟩ := resolvable ss s hs
+  have htm : t ∈ ss := by
+    unfold findStep at ht
+    exact List.mem_of_find?_eq_some ht
+  have : t = s := by
+    have inj : ∀ a ∈ ss, ∀ b ∈ ss, a.name = b.name → a = b := by
+      intro a ha b hb hab
+      exact nodup_map_inj (·.name) ss hnd a ha b hb hab
+    exact inj t htm s hs hn
+  rw [ht, this]
+
 /-! ### non-vacuity -/
+example : findStep (canvasSteps [⟨[51], false⟩, ⟨[49], true⟩]) [49] = some ⟨[49], true⟩ := by decide
+example : ((canvasSteps [⟨[51], false⟩, ⟨[49], true⟩]).map (·.name)).Nodup := by decide
 example : (steps (.regress true [⟨[97], false⟩, ⟨[98], true⟩, ⟨[99], false⟩])).map (fun s => (s.name, s.parallel)) =
     (names (Gen.regressSteps.takeWhile (·.isSome))).map (·, false) ++ [([97], true), ([99], true), ([98], false)] ++
     (names ((Gen.regressSteps.dropWhile (·.isSome)).drop 1)).map (·, false) := by decide
